@@ -656,6 +656,12 @@ func Main(args []string) {
 			decodeOnly(d.Files["Taskfile.yml"], &r2)
 			res.Decode, res.Line, res.NRaw, res.NHl = r2.Decode, r2.Line, r2.NRaw, r2.NHl
 		}
+		if res.Class == "timeout" && !res.Deadlock && (strings.Contains(res.Stack, "expand.(*Config).glob") || strings.Contains(res.Stack, "os.ReadDir(")) {
+			// still walking the file system when the deadline struck (a generated glob rooted outside the
+			// project, e.g. "/**/*.txt", visits the whole machine): slow, not a hang - no verdict
+			// (class "harness" below: reported as inconclusive and not shipped to the model comparison)
+			res.Class, res.Msg = "harness", "deadline hit while globbing the file system: "+tail(res.Stack, 200)
+		}
 		if res.Class == "timeout" && res.Phase == "run" {
 			// executing tasks is outside C16's termination clause (deadlocks of the executor are C07's subject)
 			obs.ImplFails = append(obs.ImplFails, common.ImplFail{Case: i, Kind: "inconclusive", Msg: "dry run did not finish: " + tail(res.Stack, 300)})
